@@ -16,6 +16,7 @@ WT = "/tmp/seedwt"
 OUT = "/tmp/seedout"
 GOSYM = os.environ.get("GOSYM_BIN", "/verif/bin/gosym")
 ALL = ["C%02d" % i for i in range(1, 21)]
+HOME = "/verif"
 
 def sh(*a, **k):
     return subprocess.run(a, capture_output=True, text=True, **k)
@@ -46,10 +47,10 @@ def run_seed(name, checks, tier, workers):
         r = sh("git", "-C", wt, "apply", os.path.join(SEEDED, name, "patch.diff"))
         if r.returncode != 0:
             return name, {"error": "patch does not apply: " + r.stderr[-300:]}
-        env = dict(os.environ, VERIF_REPO=wt, VERIF_OUTDIR=out, GOSYM_WORKERS=str(workers))
+        env = dict(os.environ, VERIF_REPO=wt, VERIF_OUTDIR=out, VERIF_HOME=HOME, GOSYM_WORKERS=str(workers))
         for cid in checks:
             t0 = time.time()
-            p = sh(GOSYM, "check", cid, "--tier", tier, env=env)
+            p = sh(HOME + "/gosym", "check", cid, "--tier", tier, env=env)
             lines = p.stdout.splitlines()
             viol = [l for l in lines if l.startswith("VIOLATION")]
             inc = [l for l in lines if l.startswith("INCONCLUSIVE")]
@@ -84,6 +85,14 @@ def main():
     if not names:
         names = sorted(d for d in os.listdir(SEEDED) if os.path.exists(os.path.join(SEEDED, d, "patch.diff")))
     os.makedirs(WT, exist_ok=True)
+    # snapshot of the harness, known findings and engine binary, so that /verif can be edited while the matrix runs
+    global HOME
+    HOME = "/tmp/seedhome/%d" % os.getpid()
+    shutil.rmtree(HOME, ignore_errors=True)
+    os.makedirs(HOME)
+    shutil.copytree("/verif/harness", HOME + "/harness")
+    shutil.copy("/verif/known_findings.json", HOME)
+    shutil.copy(GOSYM, HOME + "/gosym")
     workers = max(4, 16 // par)
     results = {}
     with cf.ThreadPoolExecutor(par) as ex:
@@ -110,8 +119,7 @@ def main():
             for cid, r in sorted(res.items()):
                 verdict = "CAUGHT" if r["exit"] == 1 else ("missed" if r["exit"] == 0 else f"exit{r['exit']}")
                 print(f"{n:14s} {cid} {verdict:7s} viol={r['violations']} inc={len(r['inconclusive'])} {r['wall_s']:.0f}s  {(r['detail'] or r['inconclusive'] or [''])[0][:200]}", flush=True)
-    shutil.rmtree(WT, ignore_errors=True)
-    shutil.rmtree(OUT, ignore_errors=True)
+    shutil.rmtree(HOME, ignore_errors=True)
 
 if __name__ == "__main__":
     main()
